@@ -488,6 +488,19 @@ def main(ctx):
         ev.setdefault('members', [])
         ev.setdefault('ops', [])
         ev.setdefault('items', [])
+    # twin sweep: a Quilt over a zip store read piecemeal under max_persist against a Quilt over the same Frames in memory; one call (listed, or found
+    # among the public attributes) on both
+    import json
+    from . import twin
+    tev = twin.events(rng, 500 if quick else 10000, [twin.quilt_pair_factory(workdir)])
+    for k, ev in enumerate(tev):
+        ev['id'] = k
+    ctx.count('V_twin_quilt', len(tev))
+    trej = ctx.validate_events('Trace_C02', 'Trace.cfg', tev, chunk=600)
+    for ev in tev:
+        if ev['id'] in trej:
+            ctx.violation('V', 'a call on a Quilt over a lazily loaded store differs from the same call on a Quilt over the Frames in memory: %s' % ev['what'], case={'method': ev['what'], 'info': ev['info']},
+                          actual=json.loads(ev['stale']), expected=json.loads(ev['fresh']), clause=trej[ev['id']][0])
     rej = ctx.validate_events('Trace_C19', 'Trace.cfg', events, chunk=300)
     ctx.validated -= nR
     for ev in events:
@@ -504,7 +517,7 @@ def main(ctx):
         ctx.violation('V', 'Batch.to_frame() is not the concatenation of the per-label results', case={'members': ev['members'], 'ops': ev['ops']}, actual=ev['items'], clause='batch_export')
     ctx.sample({'leg': 'V', 'event': {'cs': {k: v for k, v in events[nR]['cs'].items() if k != 'q'}}})
     return ctx.finish(rule='M/R: members of sizes <<2, 1>> (thorough <<2, 1, 2>>) x both axes x retain on / off x every int / slice / 2-list / mask key on the Quilt axis x 4 keys on the opposite axis; every enumerated selection replayed on real Quilts (30 percent over store-backed Buses with max_persist None / 1 / 2). '
-                           'V: random Quilts (1-4 members of 1-3 positions, 1-3 opposite labels, 4 dtype kinds, random block layouts) x iloc / loc / getitem / to_frame / shape / labels / values / iter_series(_items) / iter_array / iter_tuple / iter_window / iter_window_array(_items) / head (members may each be homogeneous in a dtype of their own); random Batch chains of 1-3 operations (selection, fillna, isna / notna, dropna, directional fill; direct or through apply; with and without max_workers) and their export; Batch delegation law: %d forwarded methods / operators / chains (all reductions and cumulative functions x axis x skipna, ddof, loc/iloc min/max, operators, clip, isin, transpose, duplicated, roll, shift, sort_*, selection, drop) on members with missing values, label by label against the member itself' % len(BATCH_METHODS))
+                           'V: random Quilts (1-4 members of 1-3 positions, 1-3 opposite labels, 4 dtype kinds, random block layouts) x iloc / loc / getitem / to_frame / shape / labels / values / iter_series(_items) / iter_array / iter_tuple / iter_window / iter_window_array(_items) / head (members may each be homogeneous in a dtype of their own); random Batch chains of 1-3 operations (selection, fillna, isna / notna, dropna, directional fill; direct or through apply; with and without max_workers) and their export; Batch delegation law: %d forwarded methods / operators / chains (all reductions and cumulative functions x axis x skipna, ddof, loc/iloc min/max, operators, clip, isin, transpose, duplicated, roll, shift, sort_*, selection, drop) on members with missing values, label by label against the member itself; twin sweep: one call on a Quilt over a zip store read under max_persist against a Quilt over the same Frames in memory' % len(BATCH_METHODS))
 
 
 def replay(rec):
